@@ -34,13 +34,15 @@ KINDS = [0, 1, 2, 3, 4, 5]
 
 
 def mk(name, n, prog, sched):
-    """prog: list of ('s', client, kind, [actions]) | ('x', client) stop | ('w', client) worker()"""
+    """prog: list of ('s', client, kind, [actions]) | ('x', client) stop | ('w', client) worker() | ('j', client, label) wait"""
     ops = [[1, n]]
     for p in prog:
         if p[0] == 's':
             ops.append([2, p[1], p[2]] + list(p[3]))
         elif p[0] == 'x':
             ops.append([3, p[1]])
+        elif p[0] == 'j':
+            ops.append([5, p[1], p[2]])
         else:
             ops.append([4, p[1]])
     ops.append([9] + list(sched))
@@ -82,6 +84,26 @@ def rand_body(rng):
             acts.append(6)
             break
     return acts
+
+
+def gen_wait_prog(rng):
+    """client 0 submits a job that waits for a later submission t and then waits for t itself before destroying the pool;
+    no stop() anywhere (a stop joins the waiting job's worker before it cancels t: the program would deadlock itself)"""
+    m = rng.choice([1, 2, 2])
+    ns = rng.choice([2, 3, 4])
+    t = rng.randrange(1, ns)
+    a = rng.randrange(0, t)
+    prog = []
+    for i in range(ns):
+        body = [x for x in rand_body(rng) if x not in (6,)][:3]
+        if i == a:
+            body = [10 + t] + body
+        cl = 0 if i in (a, t) else rng.randrange(m)
+        prog.append(('s', cl, rng.choice(KINDS), body))
+    prog.append(('j', 0, t))
+    if rng.random() < 0.5:
+        prog.append(('j', 0, rng.randrange(ns)))
+    return m, prog
 
 
 def gen_prog(rng):
@@ -131,17 +153,27 @@ def gen(seed, tier):
     # destructor against a stop() issued by a job: the destructor must wait for that stop
     for pre in itertools.product(range(3), repeat=5):
         cases.append(mk("d%d" % b, 2, [('s', 0, 3, [6]), ('s', 0, 3, [])], list(pre) + [0] * 4)); b += 1
+    # a job that waits for the outcome of a later submission: needs a second worker to be woken for it (or a stop to cancel it)
+    for pre in itertools.product(range(3), repeat=5):
+        cases.append(mk("w%d" % b, 2, [('s', 0, 3, [11]), ('s', 0, 2, []), ('j', 0, 1)], list(pre) + [0, 1, 2] * 3)); b += 1
+    for k in KINDS:
+        cases.append(mk("w%d" % b, 3, [('s', 0, k, [11, 7]), ('s', 0, k, []), ('s', 1, 3, []), ('j', 0, 1)], [0, 0, 1, 3, 2, 1, 0, 2])); b += 1
+        cases.append(mk("w%d" % b, 2, [('s', 0, k, [11]), ('s', 0, k, []), ('j', 0, 1), ('j', 0, 0)], [0, 0, 1, 2, 1, 0, 2, 2])); b += 1
     # a client thread that worked in the pool (worker()) destroys it while a job-issued stop() is still joining
     for pre in itertools.product(range(3), repeat=5):
         cases.append(mk("e%d" % b, 2, [('s', 0, 3, [6]), ('s', 0, 3, []), ('w', 0)], list(pre) + [1, 2, 0, 1, 2, 0])); b += 1
     for i in range(n_cases):
         n = rng.choice([1, 1, 2, 2, 3])
-        m, prog = gen_prog(rng)
+        if i % 6 == 5:
+            n = rng.choice([2, 2, 3])
+            m, prog = gen_wait_prog(rng)
+        else:
+            m, prog = gen_prog(rng)
         L = rng.choice([0, 6, 12, 20, 30, 45])
         cases.append(mk("g%d" % i, n, prog, rand_sched(rng, L, m + n)))
     # malformed stream: bad kinds / clients / sizes are ignored identically on both sides
     for i in range(12):
-        ops = [[1, rng.choice([0, 1, 2, 7])], [2, rng.choice([0, 5]), rng.choice([0, 9]), rng.choice([0, 3]), rng.choice([0, 12])],
+        ops = [[1, rng.choice([0, 1, 2, 7])], [2, rng.choice([0, 5]), rng.choice([0, 9]), rng.choice([0, 3]), rng.choice([0, 60])],
                [2, 0, 2, 6, 0], [2, 0], [3, rng.choice([1, 4])], [2, 1, rng.choice(KINDS), 1, 3, 9, 9, 9, 9, 9], [7, 1], [4, 3],
                [9] + [rng.randint(0, 4) for _ in range(10)]]
         cases.append(Case("pool", "m%d" % i, ops))
